@@ -38,6 +38,11 @@ class M:
     def __init__(self, labels, flags, kwattr=None, ids=None, direction=None, idx=None, tail=None, head=None):
         self.labels, self.flags, self.kwattr, self.ids, self.direction = labels, flags, kwattr, ids, direction
         self.idx, self.tail, self.head, self.uid = idx, tail, head, None     # add_edge: the optional id, the two member lists, the bound uid
+        self.item_mode = False      # the item of a bulk loop: the decoding of `members` is skipped, `continue` ends the item
+        self.eattr = None           # the item's own attribute dict
+        self.edgevar = None         # the name bound to {"in": set(tail), "out": set(head)}
+        self.flag_exprs = {}        # source text of a boolean expression -> flag index
+        self.decodes = ()
         self.loops = []            # innermost first
         self.sides = None          # (ed name, nd name) once the direction prologue is seen
         self.local = None          # the name bound by  edge = self._edge[k].copy()
@@ -82,6 +87,8 @@ class M:
         return None
 
     def cond(self, c):
+        if ast.unparse(c) in self.flag_exprs:
+            return f"(DFlag {self.flag_exprs[ast.unparse(c)]})"
         if isinstance(c, ast.BoolOp) and isinstance(c.op, ast.Or):
             parts = [self.cond(v) for v in c.values]
             out = parts[-1]
@@ -91,6 +98,10 @@ class M:
         if isinstance(c, ast.Compare) and len(c.ops) == 1 and isinstance(c.ops[0], ast.In) and ast.unparse(c.left) == "None" \
                 and isinstance(c.comparators[0], ast.Name) and c.comparators[0].id in (self.tail, self.head) and self.tail:
             return "DNoneInTail" if c.comparators[0].id == self.tail else "DNoneInHead"
+        if isinstance(c, ast.Compare) and len(c.ops) == 1 and isinstance(c.ops[0], ast.In) and ast.unparse(c.left) == "None" \
+                and self.edgevar and ast.unparse(c.comparators[0]) in (f"{self.edgevar}['in']", f"{self.edgevar}['out']"):
+            return "DNoneInTail" if ast.unparse(c.comparators[0]).endswith("['in']") else "DNoneInHead"
+
         if isinstance(c, ast.Compare) and len(c.ops) == 1 and isinstance(c.ops[0], (ast.Is, ast.IsNot)) and self.idx is not None \
                 and isinstance(c.left, ast.Name) and c.left.id == self.idx and ast.unparse(c.comparators[0]) == "None":
             return "DIdxNone" if isinstance(c.ops[0], ast.Is) else "(DNot DIdxNone)"
@@ -160,9 +171,12 @@ class M:
                     gs.append(f"({self.cond(st.test)}, GRaise {b[0].exc.func.id})")
                     continue
                 if len(b) == 2 and isinstance(b[0], ast.Expr) and isinstance(b[0].value, ast.Call) and isinstance(b[0].value.func, ast.Name) \
-                        and b[0].value.func.id == "warn" and isinstance(b[1], ast.Return) and b[1].value is None:
+                        and b[0].value.func.id == "warn" and ((isinstance(b[1], ast.Return) and b[1].value is None and not self.item_mode)
+                                                             or (isinstance(b[1], ast.Continue) and self.item_mode)):
                     gs.append(f"({self.cond(st.test)}, GWarnReturn)")
                     continue
+            if self.item_mode and ast.unparse(st) in self.decodes:
+                continue          # input decoding: the interpreter is handed the two member lists
             return gs, stmts[i:]
         return gs, []
 
@@ -204,6 +218,9 @@ class M:
             s = self.sub(tgt, ATABLES)
             if s and ast.unparse(val) in ("{}", "self._node_attr_dict_factory()", "self._edge_attr_dict_factory()"):
                 return f"(DNewAttr {s[0]} {s[1]})"
+            s = self.sub(tgt, {"_edge": "TEdge"})
+            if s and self.edgevar and isinstance(val, ast.Name) and val.id == self.edgevar:
+                return f"(DSetPair {s[1]})"
         if isinstance(st, ast.Expr) and isinstance(st.value, ast.Call):
             call = st.value
             if isinstance(call.func, ast.Name) and call.func.id == "update_uid_counter" and len(call.args) == 2 \
@@ -214,6 +231,11 @@ class M:
                 s = self.sub(call.func.value, ATABLES)
                 if s:
                     return f"(DAttrUpdate {s[0]} {s[1]})"
+            if isinstance(call.func, ast.Attribute) and call.func.attr == "update" and len(call.args) == 1 \
+                    and isinstance(call.args[0], ast.Name) and self.eattr is not None and call.args[0].id == self.eattr:
+                s = self.sub(call.func.value, ATABLES)
+                if s:
+                    return f"(DAttrUpdateItem {s[0]} {s[1]})"
             if isinstance(call.func, ast.Attribute) and call.func.attr in ("add", "remove") and len(call.args) == 1:
                 s = self.sub2(call.func.value)
                 if s:
@@ -278,7 +300,85 @@ def translate():
         kw = fns[0].args.kwarg.arg if fns[0].args.kwarg else None
         body = [s for s in fns[0].body if not (isinstance(s, ast.Expr) and isinstance(s.value, ast.Constant))]
         out.append(f"Definition {coqname} : list dstmt :=\n  {M(labels, flags, kw, ids, direction).block(body)}.\n")
-    return out + translate_add_edge(cls[0])
+    return out + translate_add_edge(cls[0]) + translate_add_edges_from_items(cls[0]) + translate_add_edges_from_dict(cls[0])
+
+
+FORMAT_DISPATCH = {
+    "(e, next(self._edge_uid), {})": (False, False),
+    "(e[0], e[1], {})": (True, False),
+    "(e[0], next(self._edge_uid), e[1])": (False, True),
+    "(e[0], e[1], e[2])": (True, True),
+}
+NEXT_ITEM = "try:\n    e = next(new_edges)\nexcept StopIteration:\n    break"
+DECODE_ITEM = ("try:\n    tail = list(members[0])\n    head = list(members[1])\n    edge = {'in': set(tail), 'out': set(head)}\n"
+               "except TypeError as e:\n    raise XGIError('Invalid ebunch format') from e")
+
+
+DECODE_DICT = ("if isinstance(members, (tuple, list)):\n    tail = members[0]\n    head = members[1]\nelse:\n"
+               "    raise XGIError('Directed edge must be a list or tuple!')",
+               "try:\n    tail, head = (list(tail), list(head))\n    edge = {'in': set(tail), 'out': set(head)}\n"
+               "except TypeError as e:\n    raise XGIError('Invalid ebunch format') from e")
+
+
+def translate_add_edges_from_dict(cls):
+    """the dict branch (format 5) of DiHypergraph.add_edges_from:  for idx, members in ebunch_to_add.items(): <item>"""
+    fns = [n for n in cls.body if isinstance(n, ast.FunctionDef) and n.name == "add_edges_from"]
+    if len(fns) != 1:
+        raise TranslationError("DiHypergraph.add_edges_from not found")
+    body = [s for s in fns[0].body if not (isinstance(s, ast.Expr) and isinstance(s.value, ast.Constant))]
+    first = body[0] if body else None
+    if not (isinstance(first, ast.If) and ast.unparse(first.test) == "isinstance(ebunch_to_add, dict)" and not first.orelse
+            and len(first.body) == 2 and isinstance(first.body[1], ast.Return) and first.body[1].value is None):
+        raise TranslationError("DiHypergraph.add_edges_from: expected the dict branch first")
+    loop = first.body[0]
+    if not (isinstance(loop, ast.For) and ast.unparse(loop.target) == "(idx, members)" and ast.unparse(loop.iter) == "ebunch_to_add.items()"
+            and not loop.orelse):
+        raise TranslationError("DiHypergraph.add_edges_from: expected `for idx, members in ebunch_to_add.items():`")
+    m = M([], [], None, idx="idx", tail="tail", head="head")
+    m.item_mode, m.edgevar, m.decodes = True, "edge", DECODE_DICT
+    gs, rest = m.guards(loop.body)
+    return [f"Definition dsrc_dict_item_guards : list (dbexp * guard_action) :=\n  [{'; '.join(gs)}].\n",
+            f"Definition dsrc_dict_item : list dstmt :=\n  {m.block(rest)}.\n"]
+
+
+def translate_add_edges_from_items(cls):
+    """formats 1-4 of DiHypergraph.add_edges_from: the dispatch on the format (read into a table), the item
+    (`if idx in self._edge.keys(): warn(...) else: <statements>`, a guarded body) and the fetch of the next item"""
+    fns = [n for n in cls.body if isinstance(n, ast.FunctionDef) and n.name == "add_edges_from"]
+    if len(fns) != 1 or fns[0].args.kwarg is None:
+        raise TranslationError("DiHypergraph.add_edges_from not found")
+    loops = [s for s in fns[0].body if isinstance(s, ast.While)]
+    if len(loops) != 1 or ast.unparse(loops[0].test) != "True" or loops[0].orelse or len(loops[0].body) != 3:
+        raise TranslationError("DiHypergraph.add_edges_from: expected one `while True:` loop of three statements")
+    disp, item, nxt = loops[0].body
+    table, cur = [], disp
+    for k in (1, 2, 3, 4):
+        if not (isinstance(cur, ast.If) and isinstance(cur.test, ast.Name) and cur.test.id == f"format{k}" and len(cur.body) == 1
+                and isinstance(cur.body[0], ast.Assign) and ast.unparse(cur.body[0].targets[0]) == "(members, idx, eattr)"
+                and ast.unparse(cur.body[0].value) in FORMAT_DISPATCH):
+            raise TranslationError(f"DiHypergraph.add_edges_from: dispatch of format {k} not understood")
+        table.append(FORMAT_DISPATCH[ast.unparse(cur.body[0].value)])
+        if k < 4:
+            if len(cur.orelse) != 1:
+                raise TranslationError("DiHypergraph.add_edges_from: dispatch chain not understood")
+            cur = cur.orelse[0]
+        elif cur.orelse:
+            raise TranslationError("DiHypergraph.add_edges_from: dispatch chain not understood")
+    if ast.unparse(nxt) != NEXT_ITEM:
+        raise TranslationError("DiHypergraph.add_edges_from: fetch of the next item not understood")
+    if not (isinstance(item, ast.If) and len(item.body) == 1 and isinstance(item.body[0], ast.Expr) and isinstance(item.body[0].value, ast.Call)
+            and isinstance(item.body[0].value.func, ast.Name) and item.body[0].value.func.id == "warn" and item.orelse):
+        raise TranslationError("DiHypergraph.add_edges_from: item not understood")
+    m = M([], [], fns[0].args.kwarg.arg, idx="idx", tail="tail", head="head")
+    m.item_mode, m.eattr, m.edgevar, m.decodes = True, "eattr", "edge", (DECODE_ITEM,)
+    explicit = [f"format{k + 1}" for k, (ex, _) in enumerate(table) if ex]
+    m.flag_exprs = {" or ".join(explicit): 0}
+    g0 = f"({m.cond(item.test)}, GWarnReturn)"
+    gs, rest = m.guards(item.orelse)
+    tab = "; ".join(f"({str(ex).lower()}, {str(ea).lower()})" for ex, ea in table)
+    return [f"Definition dsrc_bulk_formats : list (bool * bool) :=\n  [{tab}].\n",
+            f"Definition dsrc_bulk_item_guards : list (dbexp * guard_action) :=\n  [{'; '.join([g0] + gs)}].\n",
+            f"Definition dsrc_bulk_item : list dstmt :=\n  {m.block(rest)}.\n"]
 
 
 def translate_add_edge(cls):
